@@ -290,6 +290,11 @@ func (e *evaluator) evalVar(v *types.Var) *Term {
 	}
 	if e.st != nil {
 		if t, ok := e.st.vars[v]; ok {
+			// a local list that a function literal of this function appends to: what the path has assigned to it is not
+			// all it may hold by now — its construction must not be read as "known empty"
+			if _, isSl := types.Unalias(T).Underlying().(*types.Slice); isSl && knownEmptyList(t) && capturedByLiteral(e.f, v) {
+				return mk("filled", t).withType(T)
+			}
 			return t
 		}
 	}
